@@ -139,3 +139,5 @@ func (s *hStream) Read(p []byte) (int, error) {
 	}
 	return n, nil
 }
+
+func errIOEOF() error { return io.EOF }
